@@ -67,9 +67,9 @@ class G:
                 out.append(self.expr())
         return out
 
-    def program(self, doc=False):
+    def program(self, doc=False, look_alike=True):
         # doc: a module docstring (kept as written, first, with no events of its own) and a string statement that is none
-        return ("'d'\n" if doc else "") + "a = 1\nb = 2\nc = 3\n" + ("'s'\n" if doc else "") + "\n".join(self.stmts(0, self.rng.choice([1, 2, 3, 4]))) + "\n"
+        return ("'d'\n" if doc else "") + "a = 1\nb = 2\nc = 3\n" + ("'s'\n" if doc and look_alike else "") + "\n".join(self.stmts(0, self.rng.choice([1, 2, 3, 4]))) + "\n"
 
 
 def gen_cases(rng, n):
@@ -237,7 +237,7 @@ def check_sem(ctx, rng, n):
         else:
             d = {"half": 0.5, "sparse": 0.15, "dense": 0.85}[mode]
             ev = [e for e in FRAG_EVENTS if rng.random() < d] or [rng.choice(FRAG_EVENTS)]
-        cases.append({"src": g.program(), "events": ev, "guards": rng.random() < 0.5})
+        cases.append({"src": g.program(doc=rng.random() < 0.2, look_alike=False), "events": ev, "guards": rng.random() < 0.5})   # values stay ints / bools / None
     out = []
     for i in range(0, len(cases), 40):
         r, res, o = lib.impl_run("c01_sem.py", cases[i:i + 40], timeout=1200)
